@@ -57,6 +57,31 @@ var c08GroupsWeb = []string{"important", "party", "case", "ct", "domain", "denya
 var c08GroupsDNS = []string{"important", "ct", "denyallow", "dnstype", "ctag", "client", "dnsrewrite"}
 var c08Patterns = []string{"||e.org^", "||e.org^", "||e.org^", "e.org", "|http://e.org/"}
 
+// c08EscPatterns: patterns with ESCAPED special characters (`\$` -- the options delimiter --, `\,`, `\/`, `\|`), as basic
+// patterns and as /regexp/ rules.  The text of a rule WITHOUT modifiers and the text of its twin (`<rule>$badfilter`) go
+// through different branches of parseRuleText (no delimiter found / regexp fast path versus delimiter found); both
+// must yield the same pattern.  (No pattern ends in `$`: `…$$badfilter` would hold the marker `$$` of an HTML filtering
+// rule and NewRule reads the line as a cosmetic rule.)  Every pattern is hit by one of c08WebReqs (c08EscDNSPatterns: by the DNS requests).
+var c08EscPatterns = []string{`||e.org/pay\$id`, `/e\.org\/pay\$id/`, `||e.org/a\,b`, `/e\.org\/a\,b/`, `/e\.org\/(ad|pay\$id)/`,
+	`|http://e.org/pay\$id`, `e.org/pay\$i`, `/^https?:\/\/e\.org\/[a-z]+\$/`, `/e\.org\/ad\.(js|png)(\$x)?/`, `||e.org^*\$id`, `/\$id$/`, `/e\.org\/x\|y/`}
+var c08EscDNSPatterns = []string{`/e\.org(\$x)?/`, `/^(sub\.)?e\.org(\,|\$)?$/`, `/e\.org\/?/`}
+
+// c08Pattern: one of the plain patterns, or (3 times in 10) one with escaped characters.
+func c08Pattern(r *rng, dns bool) string {
+	if r.chance(3, 10) {
+		if dns {
+			return pick(r, c08EscDNSPatterns)
+		}
+
+		return pick(r, c08EscPatterns)
+	}
+	if dns {
+		return "||e.org^"
+	}
+
+	return pick(r, c08Patterns)
+}
+
 // canon identifies the parsed rule up to text: groups whose values are sorted
 // by the parser ($ctag, $client) are compared as sets.
 func (s c08Spec) canon() string {
@@ -261,14 +286,17 @@ func c08Groups(dns bool) []string {
 
 func genC08Spec(r *rng, dns bool) c08Spec {
 	for {
-		s := c08Spec{exc: r.chance(1, 3), pat: pick(r, c08Patterns), mods: map[string]string{}}
-		if dns {
-			s.pat = "||e.org^"
-		}
+		s := c08Spec{exc: r.chance(1, 3), pat: c08Pattern(r, dns), mods: map[string]string{}}
+		// one spec in six has NO modifier at all (its twin is then `<pattern>$badfilter`: the only rule text of the
+		// pair with an options delimiter), one in six exactly one
+		few := r.n(6)
 		for _, g := range c08Groups(dns) {
 			p := 5
 			if g == "wl" || g == "bl" || g == "dnsrewrite" {
 				p = 10
+			}
+			if few == 0 || (few == 1 && len(s.mods) > 0) {
+				break
 			}
 			if r.chance(1, p) {
 				if (g == "wl" && !s.exc) || (g == "bl" && s.exc) {
@@ -290,10 +318,7 @@ func c08NearTwin(r *rng, s c08Spec, dns bool) c08Spec {
 		t := s.clone()
 		switch r.n(12) {
 		case 0:
-			if dns {
-				continue
-			}
-			t.pat = pick(r, c08Patterns)
+			t.pat = c08Pattern(r, dns)
 		case 1:
 			t.exc = !t.exc
 			delete(t.mods, "wl")
@@ -352,6 +377,26 @@ func genC08Negates(r *rng, n int, w *bufio.Writer) {
 		ans := guardStr(func() string { return wbool(b.VerifNegatesBadfilter(x)) })
 		fmt.Fprintf(w, "c08.negates %s %s = %s ## %s  negates?  %s\n", wnetrule(b), wnetrule(x), ans, b.RuleText, x.RuleText)
 	}
+	// the twin relation stated on the rule TEXTS (the parsed records above are compared field by field, so a parser that
+	// reads the pattern or a value of `x` and of `x$badfilter` differently is invisible there): the text of a valid
+	// rule with `badfilter` added to its modifier list (as the only modifier if it has none) must negate it
+	emitTextTwin := func(x c08Spec) {
+		t1, t2 := x.text(r, false), x.text(r, true)
+		detail := ""
+		ans := guardStr(func() string {
+			f1, err1 := rules.NewNetworkRule(t1, 1)
+			f2, err2 := rules.NewNetworkRule(t2, 2)
+			if err1 != nil || err2 != nil {
+				detail = fmt.Sprintf("rejected: %v / %v", err1, err2)
+
+				return "F"
+			}
+			detail = fmt.Sprintf("patterns %q / %q", f1.VerifRaw().Pattern, f2.VerifRaw().Pattern)
+
+			return wbool(f2.VerifNegatesBadfilter(f1) && !f1.VerifNegatesBadfilter(f2))
+		})
+		fmt.Fprintf(w, "assert c08.texttwin %s %s = %s ## %s  must be negated by  %s : %s\n", wb(t1), wb(t2), ans, t1, t2, detail)
+	}
 	// D7 replay
 	emit(c08Parse("||e.org^$denyallow=b.com,badfilter"), c08Parse("||e.org^$denyallow=a.com"))
 	emit(c08Parse("||e.org^$dnstype=A,badfilter"), c08Parse("||e.org^$dnstype=AAAA"))
@@ -372,6 +417,7 @@ func genC08Negates(r *rng, n int, w *bufio.Writer) {
 			emit(c08Parse(a.text(r, true)), c08Parse(b.text(r, false)))
 		case 0, 1:
 			emit(c08Parse(x.text(r, true)), c08Parse(x.text(r, false)))
+			emitTextTwin(x)
 		case 2, 3, 4:
 			y := c08NearTwin(r, x, dns)
 			if r.chance(1, 2) {
@@ -539,6 +585,12 @@ func genC08Engine(r *rng, n int, w *bufio.Writer) {
 		rules.NewRequest("http://e.org/ad.png", "http://other.org/", rules.TypeImage),
 		rules.NewRequest("http://e.org/", "", rules.TypeDocument),
 		rules.NewRequest("https://sub.e.org/x", "http://e.org/", rules.TypeMedia),
+		// hit by the patterns with escaped characters (c08EscPatterns)
+		rules.NewRequest("http://e.org/pay$id", "http://site.com/page", rules.TypeScript),
+		rules.NewRequest("http://e.org/pay\\$id", "", rules.TypeImage),
+		rules.NewRequest("http://e.org/a,b", "http://other.org/", rules.TypeScript),
+		rules.NewRequest("http://e.org/a\\,b", "http://site.com/", rules.TypeImage),
+		rules.NewRequest("http://e.org/x|y", "http://site.com/", rules.TypeScript),
 	}
 	dnsReqs := []*urlfilter.DNSRequest{
 		{Hostname: "e.org", DNSType: 1},
